@@ -1,5 +1,6 @@
 #include "props.h"
 #include "agg.h"
+#include <array>
 
 static void note_run(const RunResult &r, const Plan &p, Verdict &v, Agg *agg);
 
@@ -28,6 +29,8 @@ static void conn_from_capture(Rng &rng, ConnPlan &cp, std::vector<Op> &ops, int 
     }
 }
 
+static void make_multipart_request(Rng &rng, MsgSpec &q);   // defined with the C14 material
+
 static void chaos_plan(Rng &rng, Plan &p, const std::string &prop) {
     p.prop = prop; p.scenario = "chaos";
     random_cfg(rng, p.cfg, false);
@@ -35,7 +38,7 @@ static void chaos_plan(Rng &rng, Plan &p, const std::string &prop) {
     if (prop == "C10" && rng.coin()) { static const long M[] = {1, 2, 8}; p.cfg.set("max_tx", M[rng.below(3)]); }
     int nconn = rng.chance(1, 6) ? (int) rng.range(2, 3) : 1;
     p.conns.resize((size_t) nconn);
-    GenFeatures f; f.bare_lf = true;
+    GenFeatures f; f.bare_lf = true; f.wild_path = true;
     std::vector<std::vector<Op>> per_conn((size_t) nconn);
     for (int c = 0; c < nconn; c++) {
         ConnPlan &cp = p.conns[(size_t) c];
@@ -44,6 +47,8 @@ static void chaos_plan(Rng &rng, Plan &p, const std::string &prop) {
         if (src < 4) {
             int n = (int) rng.range(1, 6);
             Script s = (rng.chance(1, 6)) ? connect_script(rng, 100 * c) : random_script(rng, f, n, 100 * c);
+            // stateful body parsers under faults: some requests carry a multipart/form-data body
+            if (rng.chance(1, 4)) { size_t k = rng.below(s.req.size()); if (s.req[k].method != "HEAD" && s.req[k].method != "CONNECT" && s.res[k].interim.empty()) make_multipart_request(rng, s.req[k]); }
             build_conn_from_script(rng, s, cp, false);
         } else {
             ordered = rng.coin();
@@ -115,6 +120,25 @@ static void chaos_plan(Rng &rng, Plan &p, const std::string &prop) {
     if (nops && rng.chance(1, 5)) {   // capture loss
         int k = (int) rng.range(1, 2);
         for (int i = 0; i < k; i++) { Op &op = p.ops[rng.below(nops)]; if (op.kind == 'Q') op.kind = 'q'; else if (op.kind == 'S') op.kind = 's'; }
+    } else if (nops && rng.chance(1, 6)) {
+        // capture loss biased to where in-flight state is richest: the chunk(s) that carry the end of a message (the gap then
+        // reaches or passes the end of a body that stateful consumers - multipart, urlencoded, decompressors - were fed before)
+        std::vector<std::array<size_t, 2>> pos((size_t) nconn, std::array<size_t, 2>{{0, 0}});
+        std::vector<std::pair<size_t, size_t>> ext(nops, std::make_pair((size_t) 0, (size_t) 0));
+        for (size_t i = 0; i < nops; i++) { const Op &op = p.ops[i]; if (op.kind != 'Q' && op.kind != 'S') continue; int d = op.kind == 'S'; ext[i] = std::make_pair(pos[(size_t) op.conn][(size_t) d], pos[(size_t) op.conn][(size_t) d] + (size_t) op.n); pos[(size_t) op.conn][(size_t) d] += (size_t) op.n; }
+        int c = (int) rng.below((uint64_t) nconn);
+        const ConnPlan &cp = p.conns[(size_t) c];
+        if (!cp.xchg.empty()) {
+            const Exchange &x = cp.xchg[rng.below(cp.xchg.size())];
+            int d = (int) rng.below(2); size_t E = (size_t) (d ? x.res.b : x.req.b);
+            char want = d ? 'S' : 'Q';
+            long last = -1;
+            for (size_t i = 0; i < nops; i++) {
+                Op &op = p.ops[i]; if (op.conn != c || op.kind != want) continue;
+                if (ext[i].first < E && E <= ext[i].second) { op.kind = d ? 's' : 'q'; if (last >= 0 && rng.coin()) p.ops[(size_t) last].kind = d ? 's' : 'q'; break; }
+                last = (long) i;
+            }
+        }
     }
     if (rng.chance(1, 4)) {   // end of stream at an arbitrary instant; traffic after it stays in the plan (data after close)
         Op op; op.kind = rng.chance(1, 3) ? 'c' : 'C'; op.conn = (int) rng.below((uint64_t) nconn);
@@ -172,7 +196,9 @@ static void make_multipart_request(Rng &rng, MsgSpec &q);   // defined with the 
 static void c03_plan(Rng &rng, Plan &p, uint64_t variant) {
     p.prop = "C03"; p.scenario = "diff";
     wellformed_cfg(rng, p.cfg);
-    GenFeatures f;
+    GenFeatures f; f.wild_path = true;
+    // invariance does not depend on the decoder configuration: draw every switch (the normalised URI is part of the comparison)
+    if (rng.chance(1, 2)) { p.cfg.set("dec_swarm", (long) rng.below(1000000) + 1); p.cfg.set("dec_swarm_urlenc", rng.coin()); }
     int n = (int) rng.range(1, 4);
     if (rng.chance(1, 3)) { f.max_body = 40; f.many_headers = false; }   // short histories: the single-cut sweep visits every offset
     Script s = random_script(rng, f, n, 0);
@@ -255,6 +281,10 @@ static void wf_plan(Rng &rng, Plan &p, const std::string &prop) {
     if (prop == "C02") { n = (int) rng.range(1, 16); }
     if (prop == "C04") { n = (int) rng.range(1, rng.chance(1, 4) ? 40 : 12); f.max_body = 60; f.many_headers = false; f.close_delim = rng.coin(); }
     if (prop == "C06") { f.max_body = rng.chance(1, 4) ? 9000 : 400; f.hostile_body = true; f.many_headers = false; }
+    f.wild_path = true;
+    // the way an IDS in streaming mode uses the library: completed transactions are destroyed between calls (2) and their list
+    // slots recycled with htp_connp_tx_freed (3) while later pipelined transactions are still in flight
+    if (rng.chance(1, prop == "C04" ? 3 : 6)) p.cfg.set("disposal", (long) rng.range(2, 3));
     Script s = random_script(rng, f, n, 0);
     p.conns.resize(1);
     build_conn_from_script(rng, s, p.conns[0], true);
@@ -1066,7 +1096,7 @@ static void c18_plan(Rng &rng, Plan &p) {
         q.framing = FR_CL; q.body = q.payload = body; { HeaderSpec h; h.name = "Content-Length"; h.value = strfmt("%zu", body.size()); q.headers.push_back(h); }
         MsgSpec r; r.is_request = false; r.status = 200; r.reason = "OK"; r.framing = FR_CL; { HeaderSpec h; h.name = "Content-Length"; h.value = "0"; r.headers.push_back(h); }
         s.req.push_back(q); s.res.push_back(r); build_conn_from_script(rng, s, cp, false);
-    } else { GenFeatures f; Script s = random_script(rng, f, (int) rng.range(1, 5), 0); build_conn_from_script(rng, s, cp, false); }
+    } else { GenFeatures f; f.wild_path = true; Script s = random_script(rng, f, (int) rng.range(1, 5), 0); build_conn_from_script(rng, s, cp, false); }
     for (auto &x : cp.xchg) x.expect.clear();
     if (ops.empty() || rng.coin()) {
         ops.clear();
@@ -1189,7 +1219,7 @@ static void c19_plan(Rng &rng, Plan &p) {
     int nconn = (int) rng.range(2, 8);
     p.conns.resize((size_t) nconn);
     std::vector<std::vector<Op>> per((size_t) nconn);
-    GenFeatures f;
+    GenFeatures f; f.wild_path = true;
     for (int c = 0; c < nconn; c++) {
         ConnPlan &cp = p.conns[(size_t) c];
         int src = (int) rng.below(10);
